@@ -321,9 +321,11 @@ func grammarOpcodes(repo string) []string {
 
 var operandKinds = []string{"AL", "CX", "EDX", "ES", "CR0", "DR1", "TR6", "MM0", "XMM1", "ST0", "5", "0x12345", "-1", "300", "\"str\"", "'c'", "[BX]", "BYTE [SI+4]", "DWORD [EAX*4+8]",
 	"WORD [0x1234]", "[ESP+EBP*2-1]", "deflabel", "nolabel", "UNDEFEQU", "8:0x10", "DWORD 2*8:0x1b", "SHORT deflabel", "FAR [BX]", "$", "$+4", "[deflabel]", "[nolabel+2]", "ES:[DI]", "(1+2)*3", "1/0", "5%0",
-	"{{.x}}", "\"{{.deflabel}}\"", "[]", "[BX+]", "BYTE", "[BX*3]", "[AX]", "[EAX+EBX+ECX]", "[ESP*2]", "AX:BX", "1:2:3", "--1", "+1", "'", "\"unterminated", "[BX", "BX]"}
+	"{{.x}}", "\"{{.deflabel}}\"", "[]", "[BX+]", "BYTE", "[BX*3]", "[AX]", "[EAX+EBX+ECX]", "[ESP*2]", "AX:BX", "1:2:3", "--1", "+1", "'", "\"unterminated", "[BX", "BX]",
+	// degenerate literals and seg:off pairs made of them (a literal is re-rendered without its quotes, so the text downstream can be empty)
+	"''", "\"\"", "' '", "'':5", "5:''", "\"\":\"\"", "' ':' '", "'ab':'cd'", "deflabel:deflabel", "nolabel:5", "-1:-1", "0x10000:5", "DWORD '':5", "['']", "''+1", "$:$", "5:", ":5", "[5:5]"}
 
-func genC13Cases(env *Env, r *Rand, n int) []Case {
+func genC13Cases(env *Env, r *Rand, n int, full bool) []Case {
 	ops := grammarOpcodes(env.Repo)
 	var cases []Case
 	add := func(fam, src string) { cases = append(cases, &CrashCase{Src: []byte(src), Family: fam}) }
@@ -346,6 +348,17 @@ func genC13Cases(env *Env, r *Rand, n int) []Case {
 					}
 					add(fmt.Sprintf("mnemonic-arity%d", a), mode+wrap("\t"+op+" "+strings.Join(xs, ",")))
 				}
+			}
+		}
+	}
+	// every mnemonic with every operand kind as its only operand (the full product; in the quick tier for the default mode only)
+	for mi, mode := range []string{"", "[BITS 32]\n"} {
+		if mi == 1 && !full {
+			break
+		}
+		for _, op := range ops {
+			for _, x := range operandKinds {
+				add("mnemonic-each-kind", mode+wrap("\t"+op+" "+x))
 			}
 		}
 	}
@@ -489,7 +502,7 @@ func init() {
 		if env.Tier == "thorough" {
 			n = 400000
 		}
-		cases := genC13Cases(env, r, n)
+		cases := genC13Cases(env, r, n, env.Tier == "thorough")
 		// size families with the parser-step monitor
 		sizes := []int{16, 32, 64, 128, 256, 512, 1024, 2048, 4096}
 		if env.Tier == "thorough" {
